@@ -8,6 +8,7 @@ import (
 	"github.com/cockroachdb/errors"
 	"github.com/cockroachdb/errors/extgrpc"
 	"github.com/cockroachdb/errors/exthttp"
+	"github.com/cockroachdb/logtags"
 	"google.golang.org/grpc/codes"
 	"verifh/gen"
 	"verifh/sym"
@@ -17,7 +18,7 @@ import (
 // every recipe; the root cause is the recipe's leaf.
 func H_C10_Text(v *sym.V) {
 	g := newG(v, sym.REG)
-	b := g.BuildUpTo("e", v.Param("D", 2), gen.AllLeaves, gen.AllWrappers)
+	b := build(v, g, "e")
 	e := b.Err
 	k := fmt.Sprintf("%T", e)
 	v.Observe("text", e.Error())
@@ -58,6 +59,9 @@ func H_C10_Nil(v *sym.V) {
 		{"WithDomain", func() error { return errors.WithDomain(nil, errors.NamedDomain("d")) }},
 		{"WithIssueLink", func() error { return errors.WithIssueLink(nil, errors.IssueLink{IssueURL: "u"}) }},
 		{"WithContextTags", func() error { return errors.WithContextTags(nil, ctx) }},
+		{"WithContextTags-tagged", func() error {
+			return errors.WithContextTags(nil, logtags.AddTag(ctx, "k", "v"))
+		}},
 		{"WithAssertionFailure", func() error { return errors.WithAssertionFailure(nil) }},
 		{"Mark", func() error { return errors.Mark(nil, some) }},
 		{"WithSecondaryError", func() error { return errors.WithSecondaryError(nil, some) }},
